@@ -261,6 +261,15 @@ func (t *fnTrans) get(st *State, name string) Term {
 }
 
 func (t *fnTrans) set(name string, v Term) {
+	// keep terms small: a large new value is bound to a fresh constant (otherwise every further
+	// store re-embeds the whole previous term and sizes double per update)
+	if len(v) > 400 {
+		if sv := t.vars[name]; sv != nil {
+			c := t.fresh(name+"_v", sv.Sort)
+			t.define(fmt.Sprintf("(= %s %s)", c, v))
+			v = c
+		}
+	}
 	t.cur.m[name] = v
 	t.noteWrite(name)
 }
